@@ -466,6 +466,18 @@ func (g *Gen) opLimitBurst(conns []*Client) {
 
 func (g *Gen) opBadReq(conns []*Client) {
 	c := g.conn(conns)
+	// a frame without an id (or with a null id) is no request: nothing answers it
+	// and nothing is done on its behalf, whatever its method says
+	if rapid.IntRange(0, 3).Draw(g.t, "noid") == 0 {
+		rid := g.sample("rid", g.rids)
+		if strings.Contains(rid, "{cid}") {
+			rid = "t.a"
+		}
+		frame := g.sample("noidframe", []string{`{"method":"version"}`, `{"method":"subscribe.` + rid + `"}`, `{"id":null,"method":"get.` + rid + `"}`, `{"method":"unsubscribe.` + rid + `"}`,
+			`{"method":"call.` + rid + `.set","params":{}}`, `{"id":null,"method":"subscribe.` + rid + `"}`, `{"method":"foo"}`, `{"id":null,"method":"version","params":{"protocol":"1.2.3"}}`, `{"method":"new.` + rid + `"}`, `{"method":"auth.` + rid + `.login"}`})
+		g.w.Exec(Op{K: "craw", C: c.Idx, P: frame})
+		return
+	}
 	m := g.sample("badmethod", []string{"", "subscribe", "subscribe.", "foo.t.a", "call.t.a", "call.t.a.", "subscribe.t..a", "subscribe..t.a", "get.t.a.", "subscribe.t.*", "subscribe.t.>", "call.t.a.b?c", "subscribe.t a", "unsubscribe.", "auth.t.a", "new.", "version.x", "subscribe.?q", "subscribe.t.a?"})
 	g.w.Exec(Op{K: "creq", C: c.Idx, ID: g.nextID(c), M: m})
 }
